@@ -31,13 +31,13 @@ PROPS = {
                 relevant=lambda e: e["e"] == "c_pkt" and e.get("type") == "PUBLISH" and e.get("dup") == 1),
     "C07": dict(stages=[stages.l1_client], title="Receive Maximum", prefixes=["C07_"], families=TRACE_FAMILIES,
                 relevant=lambda e: e["e"] == "b_send" and e.get("type") == "CONNACK" and e.get("rm", 65535) < 65535),
-    "C08": dict(stages=[stages.l1_client], title="packet identifiers", prefixes=["C08_"], families=TRACE_FAMILIES,
+    "C08": dict(stages=[stages.l1_client, stages.c08_alloc], title="packet identifiers", prefixes=["C08_"], families=TRACE_FAMILIES,
                 relevant=lambda e: e["e"] == "c_pkt" and e.get("pid", 0) > 1),
     "C09": dict(title="async_disconnect", prefixes=["C09_"], families=TRACE_FAMILIES,
                 relevant=lambda e: e["e"] == "call" and e.get("kind") == "disc"),
     "C10": dict(title="CONNECT first, CONNACK gate, rotation and timing", prefixes=["C10_"], families=TRACE_FAMILIES,
                 relevant=lambda e: e["e"] == "resolve"),
-    "C11": dict(title="single-flight reconnection", prefixes=["C11_"], families=TRACE_FAMILIES,
+    "C11": dict(stages=[stages.c11_mutex], title="single-flight reconnection", prefixes=["C11_"], families=TRACE_FAMILIES,
                 relevant=lambda e: e["e"] == "attempt"),
     "C12": dict(title="keep-alive", prefixes=["C12_"], families=TRACE_FAMILIES,
                 relevant=lambda e: e["e"] == "c_pkt" and e.get("type") == "PINGREQ" or (e["e"] == "c_read_end" and e.get("ec") == "timed_out")),
@@ -49,4 +49,8 @@ PROPS = {
                 relevant=lambda e: e["e"] == "done" and e.get("ec") in ("packet_too_large", "qos_not_supported", "retain_not_available",
                                                                         "topic_alias_maximum_reached", "wildcard_subscription_not_available",
                                                                         "shared_subscription_not_available", "subscription_identifier_not_available")),
+    "C20": dict(stages=[stages.c20_stage], title="reason-code admission", prefixes=["C20_"], families=[], relevant=lambda e: False,
+                level="model_checking",
+                assume=["spec/ReasonCodes.tla is a faithful transcription of the MQTT 5 reason-code tables",
+                        "AddressSanitizer red zones around the (internal-linkage) lookup tables reveal accesses outside them"]),
 }
